@@ -30,7 +30,8 @@ Print Assumptions C14_next_false_ends.
 Theorem C14_get_guards :
   forall i a,
     (it_started i = false -> a <> GOutcome -> snd (fst (iter_get i a)) <> None) /\
-    (wf_iter i -> it_started i = true -> ended i -> snd (fst (iter_get i a)) <> None).
+    (wf_iter i -> it_started i = true -> ended i ->
+     (forall r, it_rows i = Some r -> r_more r = false) -> snd (fst (iter_get i a)) <> None).
 Proof. exact get_guards. Qed.
 Print Assumptions C14_get_guards.
 
@@ -50,18 +51,17 @@ Print Assumptions C14_order.
    fetch; a cancellation while rows remain) and is what Close returns. *)
 Theorem C14_fetch_failure_recorded :
   forall r r' e, wf_rows r -> r_closed r = false -> r_fail r = Some (0, e) ->
-    rows_next r = (r', false) -> r_lasterr r' = Some (ErrDriver e).
+    rows_next r = (r', false) -> recorded r' (ErrDriver e).
 Proof. exact fetch_failure_recorded. Qed.
 Print Assumptions C14_fetch_failure_recorded.
 
 Theorem C14_cancel_recorded :
-  forall r, wf_rows r -> r_closed r = false -> r_hit_eof r = false ->
-    r_lasterr (rows_cancel r) = Some ErrCtx.
+  forall r, wf_rows r -> r_closed r = false -> recorded (rows_cancel r) ErrCtx.
 Proof. exact cancel_recorded. Qed.
 Print Assumptions C14_cancel_recorded.
 
 Theorem C14_close_surfaces :
-  forall i r x, wf_iter i -> it_rows i = Some r -> r_lasterr r = Some x ->
+  forall i r x, wf_iter i -> it_rows i = Some r -> recorded r x ->
     snd (iter_close i) = Some x.
 Proof. exact close_surfaces. Qed.
 Print Assumptions C14_close_surfaces.
@@ -69,7 +69,7 @@ Print Assumptions C14_close_surfaces.
 (* non-vacuity (the F4 scenario): one row, then the driver fails; Close reports it, twice *)
 Example C14_applies :
   let r := {| r_pending := [{| row_id := 1; row_ok := true |}]; r_fail := Some (1, 9);
-              r_close_err := None; r_closed := false; r_lasterr := None; r_hit_eof := false;
+              r_close_err := None; r_more := false; r_closed := false; r_lasterr := None; r_hiteof := false; r_ctxdone := false;
               r_current := None; r_driver_closes := 0 |} in
   snd (iter_run (query_iter None true (RunRows r)) [OpNext; OpNext; OpClose; OpClose]) =
   [OutBool true; OutBool false; OutErr (Some (ErrDriver 9)) StNothing; OutErr (Some (ErrDriver 9)) StNothing].
